@@ -30,19 +30,10 @@ impl PartialEq for Color {
 }
 impl Ord for Color {
     fn cmp(&self, other: &Self) -> std::cmp::Ordering {
-        match (self, other) {
-            (Color::Hsla(a), Color::Hsla(b)) => a.partial_cmp(b),
-            (Color::Hsla(a), Color::Hwba(b)) => {
-                a.partial_cmp(&Hsla::from(b))
-            }
-            (Color::Hwba(a), Color::Hsla(b)) => {
-                Hsla::from(a).partial_cmp(b)
-            }
-            _ => None,
-        }
-        // Fall back to comparing as rgba, which is a total order
-        // even if some channel is NaN.
-        .unwrap_or_else(|| self.to_rgba().cmp(&other.to_rgba()))
+        // Colors are equal if they are the same rgba color, however
+        // they were written.  Comparing as rgba is a total order even
+        // if some channel is NaN.
+        self.to_rgba().cmp(&other.to_rgba())
     }
 }
 impl PartialOrd for Color {
